@@ -212,3 +212,10 @@ def r6(ctx):
     for r in c03.r2(ctx):
         r.rule = "C02-R6"
         yield r
+
+
+@M.rule("C02-R7", "timestamp source precedence on the header carrier: X-Amz-Date, else Date (shared with C19-R3)")
+def r7(ctx):
+    for r in c19.r3(ctx):
+        r.rule = "C02-R7"
+        yield r
